@@ -53,6 +53,8 @@ def handle (op : String) (a : List Nat) : Option String :=
       if rs.any (·.trap) then some "TRAP" else
       let spec := Ext.mul p (toE (rest.take d)) (toE (rest.drop d))
       some (joinNats (rs.map (·.val)) ++ " | " ++ showE spec)
+  | "extinv2exp", [d, e] => (extP d).map fun p =>
+      showE (Ext.ofBase p (GL.inv (GL.pow (GL.ofNat 2) e)))
   | "extadd", d :: rest => some (showE (Ext.add (toE (rest.take d)) (toE (rest.drop d))))
   | "extsub", d :: rest => some (showE (Ext.sub (toE (rest.take d)) (toE (rest.drop d))))
   | "extneg", _ :: rest => some (showE (Ext.neg (toE rest)))
